@@ -194,6 +194,8 @@ def session_specs(tier):
         (t1, [('D1D1', .5), ('A1D1', .3)]),
         (t0, [('D1A1', 1.0)]),
         (t1, [('K4X1', .5), ('D1', .5)]),
+        # probabilities down to 1e-50: the saved position has to survive the trip through the text of the .sav file digit for digit
+        (D.TERMINALS[3], [('A1D1', .5), ('D1O1', .5)]),
     ]
     if tier == 'thorough':
         cands += [
